@@ -789,11 +789,32 @@ theorem addItem_g (R : Rules) (K : Nat → Kind) (n : Nat) (σ : State) (f s t :
     (addItem R K n σ f s t).g = addFact R n σ.g (f, s, t) := by
   simp only [addItem]; exact addCore_g R K n σ (f, s, t) false
 
+theorem foldl_cond {α β : Type} (p : β → Bool) (F : α → β → α) : ∀ (xs : List β) (a : α),
+    xs.foldl (fun a t => if p t then a else F a t) a = (xs.filter fun t => !p t).foldl F a := by
+  intro xs
+  induction xs with
+  | nil => intro a; rfl
+  | cons x xs ih =>
+    intro a
+    simp only [List.foldl_cons, List.filter_cons]
+    cases hp : p x
+    · simp only [Bool.false_eq_true, if_false, Bool.not_false, if_true, List.foldl_cons]; exact ih _
+    · simp only [if_true, Bool.not_true, Bool.false_eq_true, if_false]; exact ih _
+
 /-- one assertion of the history: graph part -/
 theorem step_g (R : Rules) (K : Nat → Kind) (n : Nat) (σ : State) (op : Op) :
     (step R K n σ op).g = op.facts.foldl (fun g r => addFact R n g r) σ.g := by
   cases op with
   | churn => rfl
+  | storeOnly f s t => rfl
+  | assignQ f s xs muted =>
+    simp only [step, Op.facts, List.foldl_map]
+    rw [← foldl_cond (fun t => muted.contains t) (fun g t => addFact R n g (f, s, t))]
+    exact foldl_proj State.g _ (fun g t => if muted.contains t then g else addFact R n g (f, s, t))
+      (fun a t => by
+        by_cases hm : muted.contains t = true
+        · simp only [hm, if_true]
+        · simp only [hm]; exact addItem_g R K n a f s t) _ _
   | set1 f s t => simp only [step, Op.facts, List.foldl_cons, List.foldl_nil]; rw [addCore_g]
   | add f s t => simp only [step, Op.facts, List.foldl_cons, List.foldl_nil]; rw [addItem_g]
   | assign f s xs =>
@@ -817,6 +838,25 @@ theorem step_clob_false (R : Rules) (K : Nat → Kind) (n : Nat) (σ : State) (o
     (h : (step R K n σ op).clob = false) : σ.clob = false := by
   cases op with
   | churn => exact h
+  | storeOnly f s t => exact h
+  | assignQ f s xs muted =>
+    simp only [step] at h
+    have := foldl_proj State.clob
+      (fun h t => if muted.contains t then { h with st := h.st.set f s (storeAdd (K f) (h.st f s) t) }
+        else addItem R K n h f s t) (fun c _ => c)
+      (fun a t => by
+        by_cases hm : muted.contains t = true
+        · simp only [hm, if_true]
+        · simp only [hm]; exact addItem_clob R K n a f s t) (hashOrder xs)
+      { σ with st := σ.st.set f s [], clob := σ.clob || !(σ.st f s).isEmpty }
+    rw [this] at h
+    have hc : ∀ (ts : List Nat) (c : Bool), ts.foldl (fun c _ => c) c = c := by
+      intro ts; induction ts with
+      | nil => intro c; rfl
+      | cons _ _ ih => intro c; simpa using ih c
+    rw [hc] at h
+    simp only [Bool.or_eq_false_iff] at h
+    exact h.1
   | set1 f s t => simpa [step, addCore_clob] using h
   | add f s t => simpa [step, addItem_clob] using h
   | assign f s xs =>
@@ -838,6 +878,8 @@ theorem step_agree (R : Rules) (K : Nat → Kind) (n : Nat) (σ : State) (op : O
     (h : FieldsAgree K none σ) : FieldsAgree K none (step R K (n + 1) σ op) := by
   cases op with
   | churn => exact h
+  | storeOnly f s t => simp [Op.wellKinded] at hwk
+  | assignQ f s xs muted => simp [Op.wellKinded] at hwk
   | set1 f s t =>
     simp only [Op.wellKinded, beq_iff_eq] at hwk
     simp only [step]
@@ -1050,6 +1092,13 @@ example : (runModel exSchema exWorld exOps).clob = false := by decide
 example : (runModel exSchema exWorld exOps).st 3 1 = [3, 2] ∧ (runModel exSchema exWorld exOps).st 2 1 = [0] ∧
     (runModel exSchema exWorld exOps).g.length = 6 := by decide
 example : (closure (schemaRules exSchema exWorld) (fuelFor exSchema exWorld) (asserted exOps)).2 = true := by decide
+/-- F-C15-2 (test): `p.member_of.append(c)` while `c` is falsy — stored, not asserted: field and graph disagree and the
+inverse is never inferred -/
+theorem C15_cex_falsy_not_recorded :
+    let σ := runModel exSchema exWorld [.storeOnly 1 0 1]
+    σ.st 1 0 = [1] ∧ σ.g = [] ∧
+    (runModel exSchema exWorld [.add 1 0 1]).g.length = 2 := by decide
+
 /-- F-C15-1 (test): a collection assigned to a field that already holds an inferred element loses it, while the
 relation stays in the graph — `c.members = {p}` then `p.member_of = [d]` -/
 theorem C15_cex_assign_clobbers :
